@@ -31,7 +31,7 @@ stores pre-filled with colliding names while an application thread mutates and r
 re-parse of every produced reply. level 2 (real sockets, sampled): sync and tokio SimpleMdnsResponder, ServiceDiscovery (without on_discovery, with it, and with it after the application dropped the receiver) and OneShotMdnsResolver run in-process on \
 loopback multicast; batches of datagrams are followed by marker queries (unicast-response bit, unique names) whose replies prove each loop consumed the batch; every reply datagram received from a real \
 service (marker replies, and two replies of about 12.8 KB built from 60 TXT records) must be a well-formed DNS message for Packet::parse and the envelope walker; monitors: global panic hook \
-(library threads and tokio workers), lock-health probes through the public API afterwards, each on its own thread and required to return within 10 s. The traffic includes responses about the very name the resolvers ask for (asked and other types, valid / empty / odd RDATA) and, for every watched service, a peer's announcement followed later by its goodbye (TTL 0). A missing marker reply without a recorded panic is inconclusive; three consecutive silent rounds of one service while others answer are a stopped loop; if level 2 cannot start the run is inconclusive. non-trivial = datagram that is not a \
+(library threads and tokio workers), an application thread that keeps calling announce(true/false) and get_known_services() on two sync discoveries during the traffic (a call that has not returned for 10 s is a violation), followed by a storm of 60 000 back-to-back goodbyes under a flood of responses; a lock-discipline monitor in place of the sync store's RwLock (hook verif_lock: any acquisition by a thread that already holds that lock is recorded with its source line, whether or not it deadlocked this time); lock-health probes through the public API afterwards, each on its own thread and required to return within 10 s. The traffic includes responses about the very name the resolvers ask for (asked and other types, valid / empty / odd RDATA) and, for every watched service, a peer's announcement followed later by its goodbye (TTL 0). A missing marker reply without a recorded panic is inconclusive; three consecutive silent rounds of one service while others answer are a stopped loop; if level 2 cannot start the run is inconclusive. non-trivial = datagram that is not a \
 well-formed message (parser rejects it) or carries a hostile name; distinct = hash of bytes",
         assumptions: &["level 1 re-enacts the private loop bodies and cannot see edits inside them; level 2 sees them for the sampled datagrams", "loopback multicast on 224.0.0.251:5353 must be available for level 2 (else the run says inconclusive)"],
         exhaustive: false,
@@ -534,8 +534,8 @@ fn level2(ctx: &mut Ctx) {
             return;
         }
     };
-    let (disc_a, disc_b, _disc_d) = match (disc_a, disc_b, disc_d) {
-        (Ok(a), Ok(b), Ok(d)) => (a, b, d),
+    let (disc_a, disc_b, disc_d) = match (disc_a, disc_b, disc_d) {
+        (Ok(a), Ok(b), Ok(d)) => (Arc::new(a), Arc::new(b), Arc::new(d)),
         (a, b, _) => {
             ctx.notes.push(format!("level 2 skipped: ServiceDiscovery could not start (multicast unavailable?): {:?} {:?}", a.err().map(|e| e.to_string()), b.err().map(|e| e.to_string())));
             ctx.inconclusive.push("level 2 (real services on loopback multicast) could not start: ServiceDiscovery::new failed".into());
@@ -599,6 +599,35 @@ fn level2(ctx: &mut Ctx) {
         return;
     }
     ctx.count("level2_services_started");
+
+    // ---- the application keeps using the discoveries while datagrams arrive: announcements (with and without the
+    // cache-flush bit) and reads of the known services, on a thread of its own; every call has to come back
+    let app_stop = Arc::new(AtomicBool::new(false));
+    let app_calls = Arc::new(std::sync::atomic::AtomicU64::new(0));
+    let app_last_return = Arc::new(std::sync::Mutex::new(Instant::now()));
+    let app_thread = {
+        let (a, d, stop, calls, last) = (disc_a.clone(), disc_d.clone(), app_stop.clone(), app_calls.clone(), app_last_return.clone());
+        std::thread::Builder::new().name("verif-app".into()).spawn(move || {
+            let mut k = 0u64;
+            while !stop.load(Ordering::Relaxed) {
+                k += 1;
+                let r = monitor::guard(|| {
+                    match k % 4 {
+                        0 => a.announce(true),
+                        1 => { let _ = a.get_known_services(); }
+                        2 => d.announce(k % 8 == 2),
+                        _ => { let _ = d.get_known_services(); }
+                    }
+                });
+                if r.is_err() {
+                    break;
+                }
+                calls.fetch_add(1, Ordering::Relaxed);
+                *last.lock().unwrap() = Instant::now();
+                std::thread::sleep(Duration::from_millis(15));
+            }
+        }).ok()
+    };
 
     // ---- resolver threads: query while hostile responses fly ----------------------------------------
     let resolver_stop = Arc::new(AtomicBool::new(false));
@@ -733,6 +762,81 @@ fn level2(ctx: &mut Ctx) {
             break;
         }
     }
+    // ---- the application thread: did its last call come back? --------------------------------------------------
+    // (stopped here, before the resolver threads are joined: its announcements are a steady stream of datagrams, and a
+    // one-shot resolver only looks at its deadline when the socket has been silent for 100 ms)
+    app_stop.store(true, Ordering::Relaxed);
+    std::thread::sleep(Duration::from_millis(100));
+    let idle = app_last_return.lock().map(|t| t.elapsed()).unwrap_or_default();
+    ctx.add("level2_application_calls_during_traffic", app_calls.load(Ordering::Relaxed));
+    let app_finished = app_thread.as_ref().map(|h| h.is_finished()).unwrap_or(true);
+    if !app_finished && idle > Duration::from_secs(10) {
+        ctx.violation("store-stays-usable", "application-call-blocked-during-traffic",
+            format!("a call of the application thread (announce / get_known_services on a sync ServiceDiscovery, made while datagrams were being handled) has not returned for {:.0} s", idle.as_secs_f64()),
+            json!({"family": "level2", "idx": idx}));
+    } else if let Some(h) = app_thread {
+        if app_finished {
+            let _ = h.join();
+        }
+    }
+    // ---- goodbye storm: announce(true) back to back while responses pour in --------------------------------------------
+    // A window of a few instructions inside an application call (say, between two acquisitions of the store lock) only
+    // meets the receive thread's write-lock request if both sides are busy all the time: the application thread sends
+    // 60 000 goodbyes without pause while three other threads flood the group with small responses.
+    if !violated && !ctx.slow_tool {
+        let done = Arc::new(AtomicBool::new(false));
+        let storm = {
+            let (a, done) = (disc_a.clone(), done.clone());
+            std::thread::Builder::new().name("verif-storm".into()).spawn(move || {
+                let r = monitor::guard(|| {
+                    for _ in 0..60_000 {
+                        a.announce(true);
+                    }
+                });
+                done.store(true, Ordering::Relaxed);
+                r
+            }).ok()
+        };
+        // three senders keep the receive thread of that discovery busy taking the write lock at its full rate
+        let small_response = peer_announcement(&svc_a, 120);
+        let flooded = Arc::new(std::sync::atomic::AtomicU64::new(0));
+        let t0 = Instant::now();
+        let senders: Vec<_> = (0..3).map(|_| {
+            let (done, flooded, msg) = (done.clone(), flooded.clone(), small_response.clone());
+            std::thread::spawn(move || {
+                let Ok(s) = UdpSocket::bind("0.0.0.0:0") else { return };
+                let _ = s.set_multicast_loop_v4(true);
+                let t0 = Instant::now();
+                while !done.load(Ordering::Relaxed) && t0.elapsed() < Duration::from_secs(20) {
+                    for _ in 0..64 {
+                        let _ = s.send_to(&msg, "224.0.0.251:5353");
+                    }
+                    flooded.fetch_add(64, Ordering::Relaxed);
+                }
+            })
+        }).collect();
+        while !done.load(Ordering::Relaxed) && t0.elapsed() < Duration::from_secs(20) {
+            std::thread::sleep(Duration::from_millis(20));
+        }
+        for h in senders {
+            let _ = h.join();
+        }
+        ctx.add("level2_goodbye_storm_flood_datagrams", flooded.load(Ordering::Relaxed));
+        if done.load(Ordering::Relaxed) {
+            ctx.count("level2_goodbye_storms_completed");
+            if let Some(h) = storm {
+                if let Ok(Err(pn)) = h.join() {
+                    ctx.violation("store-stays-usable", &format!("api-unusable-during-traffic:announce@{}", monitor::short_loc(&pn.location)), format!("announce(true) panicked during the goodbye storm: {}", pn.message), json!({"family": "level2", "idx": idx}));
+                    violated = true;
+                }
+            }
+        } else {
+            ctx.violation("store-stays-usable", "application-call-blocked-during-traffic",
+                "ServiceDiscovery::announce(true), called back to back while responses were being received, has not returned for 20 s: the application thread and the receive thread block each other on the store lock".into(),
+                json!({"family": "level2", "idx": idx, "phase": "goodbye-storm"}));
+            violated = true;
+        }
+    }
     // ---- replies far larger than an ordinary datagram, as the real responders send them ------------------------------
     // 60 TXT records of 200 octets under one name: the reply (about 12.8 KB) fits a UDP datagram on loopback and must
     // arrive as a well-formed DNS message (a reply cut at some byte limit is not one)
@@ -821,12 +925,22 @@ fn level2(ctx: &mut Ctx) {
     }
     resolver_stop.store(true, Ordering::Relaxed);
     if let Some(h) = resolver_thread {
-        if let Ok((q, panics)) = h.join() {
-            ctx.add("level2_resolver_queries", q);
-            for p in panics {
-                let loc = monitor::short_loc(&p.location);
-                ctx.violation("loop-keeps-running", &format!("resolver-panic@{}", loc), format!("OneShotMdnsResolver panicked at {}: {}", loc, p.message), json!({"family": "level2", "idx": idx}));
+        // the resolver's current query ends when its socket has been silent for 100 ms after the deadline: wait for that,
+        // but not for ever (other mDNS traffic on the host may keep the socket busy)
+        let t0 = Instant::now();
+        while !h.is_finished() && t0.elapsed() < Duration::from_secs(20) {
+            std::thread::sleep(Duration::from_millis(50));
+        }
+        if h.is_finished() {
+            if let Ok((q, panics)) = h.join() {
+                ctx.add("level2_resolver_queries", q);
+                for p in panics {
+                    let loc = monitor::short_loc(&p.location);
+                    ctx.violation("loop-keeps-running", &format!("resolver-panic@{}", loc), format!("OneShotMdnsResolver panicked at {}: {}", loc, p.message), json!({"family": "level2", "idx": idx}));
+                }
             }
+        } else {
+            ctx.notes.push("level 2: the sync resolver's last query had not returned 20 s after the traffic stopped (its deadline is only evaluated when the socket is silent; other traffic on the group?); its thread is left behind".into());
         }
     }
     if let Ok(q) = rt.block_on(async { tokio::time::timeout(Duration::from_secs(3), async_resolver).await }) {
@@ -843,9 +957,6 @@ fn level2(ctx: &mut Ctx) {
     // it) shows as a call that never returns
     let responder = Arc::new(std::sync::Mutex::new(responder));
     let aresponder = Arc::new(tokio::sync::Mutex::new(aresponder));
-    let disc_a = Arc::new(disc_a);
-    let disc_b = Arc::new(disc_b);
-    let disc_d = Arc::new(_disc_d);
     let adisc = Arc::new(adisc);
     let adisc_e = Arc::new(_adisc_e);
     let handle = rt.handle().clone();
@@ -871,6 +982,7 @@ fn level2(ctx: &mut Ctx) {
             Err(_) => ctx.violation("store-stays-usable", &format!("api-blocked-after-traffic:{}", what), format!("{} did not return within 10 s after the traffic: the shared store's lock is held or waited for forever", what), json!({"family": "level2", "idx": idx})),
         }
     }
+    super::common::report_lock_discipline(ctx, "store-stays-usable", "level2");
     ctx.add("level2_datagrams_sent", sent);
     ctx.add("level2_tokio_on_discovery_values_drained", drained.load(Ordering::Relaxed));
     rt.shutdown_timeout(Duration::from_millis(200));
